@@ -62,12 +62,12 @@ class World:
         "under an injected peer fault the failing simulator segment may or may not be counted (model in {done, done+1})",
         "for the tracker only 'never decreases' and 'unchanged by a rejected call' are demanded of its own counters; under a disk fault the failed call's file content is not judged",
         "tracker records are compared with circuits.to_dict of the submitted circuit (C05 owns the serialiser's correctness)",
-        "argument validation is only demanded for Python ints / lists of ints as the property lists them",
+        "argument validation is only demanded for Python ints and lists / tuples of Python ints (the annotated Sequence[int]); numpy scalars and arrays are not generated",
     ]
     PROBES_EXPECTED = ["rejected-run", "rejected-batch-length", "rejected-batch-entry", "rejected-dist", "batch-ok", "run-ok",
                        "dist-exact", "dist-sampled", "wf-ok", "peer-fault-mid-batch", "over-delivery", "tracker-record-ok",
                        "tracker-bitstrings", "tracker-disk-fault", "tracker-after-disk-fault", "multi-segment", "empty-circuit",
-                       "idle-qubits", "symbolic-circuit-refused", "call-after-reject", "numpy-bit-backend"]
+                       "idle-qubits", "symbolic-circuit-refused", "call-after-reject", "numpy-bit-backend", "tuple-arguments"]
 
     # ------------------------------------------------------------ generation
     def gen_plan(self, seed, tier):
@@ -132,6 +132,7 @@ class World:
                     elif mode == "bad-entry" and ns:
                         ns[r.choice([0, len(ns) // 2, len(ns) - 1])] = r.choice([0, -1, -10])
                     a["n"] = ns
+                a["seq"] = r.choice(["list", "list", "list", "tuple", "tuple-circuits", "tuple-counts"])
             elif op == "dist":
                 a.update(c=r.randrange(16), n=r.choice([None, None, 1, 10, 50, 0, -3]))
             elif op == "wf":
@@ -473,7 +474,13 @@ class World:
         peers = self._peer_count(R)
         spy_mark = len(R["spy"].returned) if "spy" in R else 0
         self._arm(st, R, step)
-        ok, res = call(R["obj"].run_batch_and_measure, circuits, ns)
+        # the signature says Sequence[Circuit] / Sequence[int]: tuples are as good as lists
+        seq = a.get("seq", "list")
+        circuits_arg = tuple(circuits) if seq in ("tuple", "tuple-circuits") else circuits
+        ns_arg = tuple(ns) if (seq in ("tuple", "tuple-counts") and isinstance(ns, list)) else ns
+        if seq != "list":
+            ctx.probe("tuple-arguments")
+        ok, res = call(R["obj"].run_batch_and_measure, circuits_arg, ns_arg)
         fired = self._disarm(ctx, st, R)
         ctx.called("run_batch_and_measure:" + R["spec"]["kind"])
         what = f"batch[{R['spec']['kind']}/{B['spec']['kind']}]"
